@@ -451,6 +451,10 @@ def holds_coerced(v: dict, x: dict, held: dict) -> bool:
     hx = held.get("xs")
     if hx is not None:
         xx = x.get("xs")
+        if isinstance(co, dict) and co["fn"]["f"] in ("tupleTail", "listTail"):
+            # these coercers do not keep the contents: an int is wrapped, the first element of the other sequence
+            # type is dropped
+            xx = [x] if x["t"] == "int" else (xx[1:] if xx is not None else None)
         if xx is None:
             return False
         a = sorted(json.dumps(norm(i), sort_keys=True) for i in hx)
@@ -506,6 +510,8 @@ def oracle_C03(case: dict, real: dict, model: dict) -> List[str]:
         if "invalid" in o and o["invalid"]["vid"] == v["vid"] and o["invalid"]["err"]["e"] in ("type", "coercion", "preds"):
             if child_events:
                 out.append(f"{m}: container-level failure but elements were validated: {child_events[:3]}")
+            if o["invalid"]["err"]["e"] == "preds" and v["k"] != "ntuple":
+                out += reported_preds_wrong(v, o["invalid"], m)
             continue
         # elements as the documented gate yields them
         try:
@@ -573,10 +579,31 @@ def oracle_C03(case: dict, real: dict, model: dict) -> List[str]:
             else:
                 if inv["err"]["e"] != "index":
                     out.append(f"{m}: sequence rejected with {inv['err']['e']} instead of index errors")
-                elif inv["err"]["idx"] != bad:
+                elif sorted(inv["err"]["idx"]) != bad:
                     out.append(f"{m}: failing positions {inv['err']['idx']} reported, children reject {bad}")
-                elif norm(inv["children"]) != norm([results[i]["invalid"] for i in bad]):
+                elif norm([c for _, c in sorted(zip(inv["err"]["idx"], inv["children"]), key=lambda p: p[0])]) != \
+                        norm([results[i]["invalid"] for i in bad]):
+                    # (IndexErrs is a dict: its insertion order is not part of what it says)
                     out.append(f"{m}: an index error is not the child's own Invalid")
+    return out
+
+
+def reported_preds_wrong(v: dict, inv: dict, mode: str) -> List[str]:
+    """a container-predicate error lists exactly the predicates that fail on the container the error holds (the
+    coerced one, whatever the coercer): each predicate is re-evaluated, with the real predicate object, on that value"""
+    ctx = wire.Ctx()
+    out: List[str] = []
+    try:
+        held = wire.mk_value(ctx, inv["value"])
+        reported = set(inv["err"]["pids"])
+        for pd in (v.get("preds") or []):
+            r = build.mk_pred(ctx, pd)(held)
+            if r is False and pd["pid"] not in reported:
+                out.append(f"{mode}: container predicate {pd['k']} (pid {pd['pid']}) fails on the container the error holds but is not listed")
+            if r is True and pd["pid"] in reported:
+                out.append(f"{mode}: container predicate {pd['k']} (pid {pd['pid']}) is listed as failing but holds on the container the error holds")
+    except Exception:  # noqa
+        return []
     return out
 
 
